@@ -317,6 +317,8 @@ int main(int argc, char** argv) {
   BuildSystemInvocation invocation;
   bool hasDB = false;
   std::string line; int step = 0;
+  // a history may be continued by a later process: the logical clock is carried over in the file .clock
+  { std::ifstream cf(".clock"); long c; if (cf >> c) clockNow = c; }
   while (std::getline(script, line)) {
     if (line.empty()) continue;
     auto t = splitTab(line);
@@ -371,6 +373,7 @@ int main(int argc, char** argv) {
     else { emit("{\"e\":\"BadStep\"}"); return 2; }
   }
   frontend.reset(); delegate.reset();
+  { std::ofstream cf(".clock"); cf << clockNow; }
   emit("{\"e\":\"End\"}");
   return 0;
 }
